@@ -117,6 +117,56 @@ add("C20", "Hypothesis-generated measurement files/folders (synthetic HDF5 maps 
     "afmformats (file readers, grid geometry) is the trusted substrate; the list-of-paths form of load_data is outside "
     "the property and not exercised.")
 
+add("C03", "generated call histories (lists of operation records shrunk as one value) with a fresh-object differential, "
+           "a no-stale-results invariant and an idempotence check after every step; lmfit.minimize call counter",
+    "Histories of 3-14 (thorough: 30) operations over apply_preprocessing (valid/invalid), fit_model with changing "
+    "keyword subsets (valid/invalid, preprocessing kwargs, fresh parameter objects), direct edits of all 13 "
+    "fit-setting keys, single-attribute edits of the stored initial parameters, ratings, E(delta) scans, in-place "
+    "edits of returned objects, argument-less refits and repeats. After every step: a fresh curve given only the "
+    "stored preprocessing and settings reproduces hash, parameters, chi-square, range and all columns (bit-identical "
+    "in all comparisons so far); no result key without a current fit; the requested setting is what is stored; a "
+    "failed call fails again; an unchanged fit_model() runs zero optimisations and changes nothing. The orders named "
+    "by the property (range edits under plateau search, gcf_k followed by another change, failure then retry) are "
+    "generated deliberately and their frequencies reported.",
+    "Fits aborted by lmfit's max_nfev are excluded (non-reproducible in lmfit 1.3.4); exploration only.")
+
+add("C06", "generated histories of valid and invalid preprocessing requests, fits and requests issued through fit_model; "
+           "bit-identity of all columns against a fresh curve after every request",
+    "Curves in memory, file-backed (IndentationGroup) and recorded; requests from all valid step orders x option "
+    "values and four kinds of invalid request. After every valid request every column equals, bit for bit, the same "
+    "request on a fresh curve and re-applying changes nothing; an invalid request is rejected, rejected again when "
+    "repeated, never reported by the curve as applied; raw data are unchanged at the end.",
+    "Column state directly after a rejected request is not specified by the property and not asserted.")
+
+add("C10", "twin oracle per mutable argument: same object edited in place and passed again vs fresh equal-valued objects; "
+           "deep snapshots of every argument before/after each call",
+    "Ten scenarios (initial parameters passed / returned, step list, option dict, range list, method keyword dict, "
+    "preprocessing kwargs of fit_model, force array of the six contact-point estimators, rater feature-name list and "
+    "training arrays) x generated curves and fit settings incl. correction factor != 1, multi-pass ranges and "
+    "plateau search: arguments are never modified, stored state does not follow later in-place edits, and passing an "
+    "edited object again gives exactly the state of a twin curve that received fresh copies.",
+    "Scenarios are scheduled round-robin; cases with an lmfit-aborted optimisation are not judged.")
+
+add("C15", "Hypothesis-generated training matrices written as text files vs a row-wise reference loader (row tags make "
+           "pairing observable), all 8 flag combinations; class-balance identities for sample weights; export/load "
+           "round trip of generated rating containers",
+    "Matrices of 1-60 rows with NaN/+-inf patterns by cell, row, column and rating class, feature subsets in arbitrary "
+    "order, four text formats: loaded samples/responses equal the reference loader's (imputation, row dropping, inf "
+    "replacement, sorted columns, nothing else altered); weights non-negative, sum one, equal per class; exported "
+    "containers (synthetic and recorded curves, several files, re-rated curves) load back as float('%.2e' % feature) "
+    "with ratings in container order.",
+    "Columns without any finite entry and empty selections are outside the statement's domain (counted, not asserted).")
+
+add("C17", "range, order, purity, scale-invariance and retract-independence oracles on Hypothesis-generated fitted and "
+           "unfitted curve states",
+    "Fitted synthetic curves (5 models, 60-1500 approach points, noise, spikes, contact point forced near either end "
+    "or outside the data) and recorded good/bad curves; every feature is NaN or finite, binary in {0,1}, fractions in "
+    "[0,1], magnitudes >= 0 for positive peak force, names sorted, curve unchanged, bit-identical under 2^j scaling "
+    "and within 1e-9 under arbitrary scaling of force/fit/residuals, independent of retract samples; all unfitted "
+    "states give NaN for fit-dependent features without raising.",
+    "Three recorded findings (F24 order with which_type='all', F25a/b infinite features) are excluded by signature "
+    "and printed as KNOWN-FINDING.")
+
 NOT_YET = {}
 
 ALL = [f"C{i:02d}" for i in range(1, 21)]
